@@ -146,43 +146,69 @@ func runC24(c *Ctx) {
 			c.Undecided("cap-count", q.enqueue, "no PushBack found")
 		}
 		// overflow edges: latch + clear + Disconnect on every path
-		nOv := 0
-		for _, e := range IfEdges(enq) {
-			cond, truth := e.Cond()
-			bo, ok := cond.(*ssa.BinOp)
-			if !ok || bo.Op != token.GTR || !truth || !(isNewBytes(bo.X) || isNewCount(bo.X)) {
-				continue
+		// The overflow region: everything reachable from the point where the new totals are computed
+		// without taking an edge that is necessary for the enqueue (those edges say "within the caps").
+		// Whatever the caps test looks like (two comparisons, one helper, inverted), every return in that
+		// region must have disconnected the player and latched the overflow flag.
+		var totals *ssa.BasicBlock
+		eachInstr(enq, func(in ssa.Instruction) {
+			if v, ok := in.(ssa.Value); ok && (isNewBytes(v) || isNewCount(v)) {
+				if totals == nil || in.Block().Dominates(totals) {
+					totals = in.Block()
+				}
 			}
-			nOv++
-			first := e.To().Instrs[0]
-			isDisc := func(in ssa.Instruction) bool { cc := callOf(in); return cc != nil && methodName(cc) == "Disconnect" }
-			miss := false
-			if !isDisc(first) {
-				miss, _ = MayReachExitWithout(first, isDisc)
-			}
-			which := "bytes"
-			if isNewCount(bo.X) {
-				which = "count"
-			}
-			c.Check("overflow-disconnects", which+"@"+q.enqueue, first, !miss, "exceeding the cap must disconnect the player on every path")
-			latch := false
-			if st, ok := first.(*ssa.Store); ok && strings.HasSuffix(PathOf(st.Addr), ".mu."+q.overflowF) {
-				latch = true
-			} else {
-				m, _ := MayReachExitWithout(first, func(in ssa.Instruction) bool {
-					st, ok := in.(*ssa.Store)
-					if !ok {
-						return false
-					}
-					v, isB := constBool(st.Val)
-					return isB && v && strings.HasSuffix(PathOf(st.Addr), ".mu."+q.overflowF)
-				})
-				latch = !m
-			}
-			c.Check("overflow-latches", which+"@"+q.enqueue, first, latch, "overflow must latch so that later messages are rejected without buffering")
+		})
+		var pushBlocks []*ssa.BasicBlock
+		for _, ci := range callsIn(enq, func(nm string, cc *ssa.CallCommon) bool { return isDequeCall(cc, "PushBack") }) {
+			pushBlocks = append(pushBlocks, ci.Block())
 		}
-		if nOv < 2 {
-			c.Undecided("overflow-disconnects", q.enqueue, fmt.Sprintf("expected two overflow edges (bytes, count), found %d", nOv))
+		if totals == nil || len(pushBlocks) == 0 {
+			c.Undecided("overflow-disconnects", q.enqueue, "the new totals (bytes+len(data), Len()+1) or the enqueue were not found")
+		} else {
+			accept := map[Edge]bool{}
+			for _, pb := range pushBlocks {
+				for _, e := range EdgeDominators(pb) {
+					if totals.Dominates(e.From) {
+						accept[e] = true
+					}
+				}
+			}
+			isDisc := func(in ssa.Instruction) bool { cc := callOf(in); return cc != nil && methodName(cc) == "Disconnect" }
+			isLatch := func(in ssa.Instruction) bool {
+				st, ok := in.(*ssa.Store)
+				if !ok {
+					return false
+				}
+				v, isB := constBool(st.Val)
+				return isB && v && strings.HasSuffix(PathOf(st.Addr), ".mu."+q.overflowF)
+			}
+			region := func(stop func(ssa.Instruction) bool) (bad *ssa.Return, n int) {
+				reached := reachAvoiding(totals, stop, func(e Edge) bool { return accept[e] })
+				for b := range reached {
+					if b == totals {
+						continue
+					}
+					n++
+					if r, ok := lastInstr(b).(*ssa.Return); ok && b != enq.Recover {
+						bad = r
+					}
+				}
+				return
+			}
+			badD, _ := region(isDisc)
+			badL, _ := region(isLatch)
+			_, n1 := region(func(ssa.Instruction) bool { return false }) // the region itself must exist
+			var atD, atL ssa.Instruction = totals.Instrs[0], totals.Instrs[0]
+			if badD != nil {
+				atD = badD
+			}
+			if badL != nil {
+				atL = badL
+			}
+			c.Check("overflow-disconnects", "over-the-caps@"+q.enqueue, atD, len(accept) > 0 && n1 > 0 && badD == nil,
+				"when the new totals exceed a cap (any path past the totals that does not enqueue) the player must be disconnected before returning")
+			c.Check("overflow-latches", "over-the-caps@"+q.enqueue, atL, len(accept) > 0 && badL == nil,
+				"overflow must latch so that later messages are rejected without buffering")
 		}
 		// the Disconnect is not under the lock
 		checkNoCallUnderLock(c, lc, enq, ".mu.Mutex", "callback-unlocked", func(nm string, cc *ssa.CallCommon) bool { return methodName(cc) == "Disconnect" })
@@ -190,21 +216,17 @@ func runC24(c *Ctx) {
 
 		// FIFO ops on this deque anywhere in the package
 		for _, fn := range scope {
-			eachInstr(fn, func(in ssa.Instruction) {
-				cc := callOf(in)
-				if cc == nil || cc.IsInvoke() || len(cc.Args) == 0 || !strings.HasSuffix(PathOf(cc.Args[0]), ".mu."+q.dequeF) {
-					return
-				}
-				switch methodName(cc) {
+			for _, op := range dequeOpsIn(fn, ".mu."+q.dequeF) {
+				switch op.Method {
 				case "PushBack", "PopFront", "Len", "Clear":
-					c.Check("fifo", methodName(cc)+"@"+shortName(fn), in, true, "")
+					c.Check("fifo", op.Method+"@"+shortName(fn), op.At, true, "")
 				default:
-					c.Check("fifo", methodName(cc)+"@"+shortName(fn), in, false, "non-FIFO deque operation on an early plugin message queue")
+					c.Check("fifo", op.Method+"@"+shortName(fn), op.At, false, "non-FIFO deque operation on an early plugin message queue")
 				}
-			})
+			}
 		}
 	}
-	c.Floor("guarded", 30)
+	c.Floor("guarded", 15)
 	c.Floor("fifo", 8)
 
 	// config queue: ready test + enqueue one critical section; drain + writes + ready store one critical section
@@ -261,11 +283,18 @@ func runC24(c *Ctx) {
 	}
 	if fl := c.MustFunc(pkgProxy + ":(*clientConfigSessionHandler).flushQueuedPluginMessagesTo"); fl != nil {
 		var pops, writes, ready []ssa.Instruction
+		popValues := map[ssa.Value]bool{} // values that hold popped messages: PopFront results, or the result of a helper that pops
+		for _, op := range dequeOpsIn(fl, ".mu.pluginMessages") {
+			if op.Method == "PopFront" {
+				pops = append(pops, op.At)
+				if v, ok := op.At.(ssa.Value); ok {
+					popValues[v] = true
+				}
+			}
+		}
 		eachInstr(fl, func(in ssa.Instruction) {
 			if cc := callOf(in); cc != nil {
 				switch methodName(cc) {
-				case "PopFront":
-					pops = append(pops, in)
 				case "BufferPacket", "WritePacket":
 					writes = append(writes, in)
 				}
@@ -314,6 +343,24 @@ func runC24(c *Ctx) {
 			arg := w.(ssa.CallInstruction).Common().Args
 			v := arg[len(arg)-1]
 			fromPop := derivesFrom(v, 10, func(x ssa.Value) bool {
+				if popValues[x] {
+					// a helper that pops: what it returns must itself come from PopFront
+					if cl, ok := x.(*ssa.Call); ok && methodName(&cl.Call) != "PopFront" {
+						if h := staticCallee(&cl.Call); h != nil {
+							okRet := false
+							for _, r := range returnsOf(h) {
+								if len(r.Results) > 0 && derivesFrom(retVal(r, 0), 10, func(y ssa.Value) bool {
+									c2, ok := y.(*ssa.Call)
+									return ok && methodName(&c2.Call) == "PopFront"
+								}) {
+									okRet = true
+								}
+							}
+							return okRet
+						}
+					}
+					return true
+				}
 				cl, ok := x.(*ssa.Call)
 				return ok && methodName(&cl.Call) == "PopFront"
 			})
